@@ -206,14 +206,20 @@ def run(ctx, model_ok=True):
                   "blocks": len(s["block_edges"]), "projection_calls": len(r["tape"]), "status": r["status"]},
                  nontrivial=len(r["tape"]) > 0, kind="tape/" + c["kind"])
         oracle_recorded(ctx, c, r)
+        for k in c.get("exotic", []):
+            ctx.tally("exotic-" + k)
     for _ in range(ctx.n(40, 300)):
         c = E.make_case(ctx.rng)
         d = opseq(ctx, c, ctx.rng)
-        ctx.case({"kind": c["kind"], "opts": c["opts"], "ops_done": d}, nontrivial=d > 0, kind="opseq/" + c["kind"])
+        ctx.case({"kind": c["kind"], "opts": c["opts"], "ops_done": d, "exotic": c.get("exotic", [])}, nontrivial=d > 0, kind="opseq/" + c["kind"])
+        for k in c.get("exotic", []):
+            ctx.tally("exotic-" + k)
     for _ in range(ctx.n(25, 200)):
         c = date_case(ctx.rng)
         k = date_run(ctx, c)
-        ctx.case({"kind": c["kind"], "opts": c["opts"], "iterations_seen": k}, nontrivial=k > 0, kind="date/" + c["kind"])
+        ctx.case({"kind": c["kind"], "opts": c["opts"], "iterations_seen": k, "exotic": c.get("exotic", [])}, nontrivial=k > 0, kind="date/" + c["kind"])
+        for kk in c.get("exotic", []):
+            ctx.tally("exotic-" + kk)
 
 
 def search(ctx):
